@@ -90,8 +90,10 @@ def gen_event(rng, content, lens, var_names, plain):
     if r < 0.86:
         v = rng.choice(var_names + (["nope"] if rng.random() < 0.05 else []))
         return [rng.choice(["prod", "cons"]), v, b(), norm, b(0.6)]
-    if r < 0.92:
+    if r < 0.89:
         return ["pvals"]
+    if r < 0.92:
+        return ["simgoes"]  # whoever produced the result goes on: the simulator simulates further / the caller's lists grow
     if plain:
         ks = rng.sample(plain, rng.randint(1, len(plain)))
         return ["setpars", [[k, str(rng.choice([-3, -1, 0, 1, 2, 5, "1/2"]))] for k in ks]]
@@ -122,7 +124,9 @@ def gen_case(ctx, i, thorough=False):
     lens = [len(s["rows"]) for s in segs]
     events = [gen_event(rng, content, lens, var_names, plain) for _ in range(rng.randint(3, 9))]
     case = {"content": content, "segs": segs, "events": events, "decl_seed": rng.randrange(1 << 30),
-            "mode": "simulator" if rng.random() < 0.2 else "direct", "normform": rng.randrange(4)}
+            "mode": "simulator" if rng.random() < 0.25 else "direct", "normform": rng.randrange(4)}
+    if case["mode"] == "simulator" and nseg > 1 and rng.random() < 0.6:
+        case["peek"] = rng.randrange(1, nseg)  # an intermediate result is taken and read after this many segments
     # malformed results: the wrong number of snapshots / an unknown parameter name / no segment at all
     r = rng.random()
     if r < 0.03:
@@ -204,6 +208,17 @@ def raw_pars_of(case):
     return ps
 
 
+def _len(f):
+    try:
+        return len(f())
+    except Exception as e:  # noqa: BLE001
+        return type(e).__name__
+
+
+_OWNER: dict = {}   # id(result) -> what the producer of the result does when it goes on
+_MID: dict = {}     # id(model) -> the intermediate result taken by a `peek` case
+
+
 def build_simulation(case):
     """-> (Simulation, Model)"""
     import numpy as np
@@ -250,12 +265,26 @@ def build_simulation(case):
                 return self._next()
 
         sim = Simulator(m, integrator=Scripted)
-        for s in segs:
+        mid = None
+        for i, s in enumerate(segs):
+            if case.get("peek") == i:
+                # an intermediate result, read while the simulation is not over yet (fills its lazily computed tables)
+                mid = sim.get_result().unwrap_or_err()
+                _MID[id(m)] = {"obj": mid, "rows_before": [_len(lambda: mid.variables), _len(lambda: mid.fluxes),
+                                                          _len(mid.get_right_hand_side)]}
             sim.update_parameters({k: _f(v) for k, v in s["pars"]})
             # the scripted integrator ignores the requested points; they only have to pass the Simulator's
             # "end time larger than the previous end" check
             sim.simulate_time_course([_f(s["rows"][-1][0]) + 1000.0])
         res = sim.get_result().unwrap_or_err()
+
+        def go_on():
+            # the simulator simulates one more (scripted) segment after the result was handed out
+            last_t = script[-1][0][-1]
+            script.append(([last_t + 1.0, last_t + 2.0, last_t + 3.0], [script[-1][1][-1]] * 3))
+            sim.simulate_time_course([last_t + 5000.0 + 1000.0 * state["n"]])
+
+        _OWNER[id(res)] = go_on
         return res, m
     raw_vars = []
     for s in segs:
@@ -264,7 +293,18 @@ def build_simulation(case):
             data=np.array([[_f(dict(r)[k]) for k in cols] for _, r in s["rows"]], dtype=float).reshape(len(s["rows"]), len(cols)),
             index=np.array([_f(t) for t, _ in s["rows"]], dtype=float), columns=cols))
     raw_pars = [{k: _f(v) for k, v in p} for p in raw_pars_of(case)]
-    return Simulation(model=m, raw_variables=raw_vars, raw_parameters=raw_pars), m
+    res = Simulation(model=m, raw_variables=raw_vars, raw_parameters=raw_pars)
+
+    def grow():
+        # the caller goes on using the lists it built the result from
+        if raw_vars:
+            extra = raw_vars[-1].copy()
+            extra.index = extra.index + 1000.0
+            raw_vars.append(extra)
+        raw_pars.append(dict(raw_pars[-1]) if raw_pars else {})
+
+    _OWNER[id(res)] = grow
+    return res, m
 
 
 def run_event(sim, m, ev, form):
@@ -275,6 +315,11 @@ def run_event(sim, m, ev, form):
             return {"ok": ["dict", []]}
         if kind == "pvals":  # the shared model as its owner sees it
             return {"ok": ["dict", sorted([k, C.num(v)] for k, v in m.get_parameter_values().items())]}
+        if kind == "simgoes":
+            go = _OWNER.get(id(sim))
+            if go is not None:
+                go()
+            return {"ok": ["dict", []]}
         if kind == "args":
             kw = {"include_variables": ev[1][0], "include_parameters": ev[1][1], "include_derived_parameters": ev[1][2],
                   "include_derived_variables": ev[1][3], "include_reactions": ev[1][4],
@@ -326,9 +371,18 @@ def _real_worker(case):
             out["recorded"] = {"rows": rec, "pars": recp}
     for ev in case["events"]:
         out["events"].append(run_event(sim, m, ev, case.get("normform", 0)))
+    mid = _MID.pop(id(m), None)
+    if mid is not None:
+        # the intermediate result, read again now that the simulation went on: still the segments it was taken with
+        o = mid["obj"]
+        out["mid"] = {"before": mid["rows_before"],
+                      "after": [_len(lambda: o.variables), _len(lambda: o.fluxes), _len(o.get_right_hand_side)],
+                      "raw_after": _len(lambda: o.get_variables(include_derived_variables=False, include_readouts=False,
+                                                                 include_surrogate_variables=False))}
+    _OWNER.clear()
     # idempotence oracle: every read again, each on a fresh object and a fresh model
     for ev in case["events"]:
-        if ev[0] in ("setpars", "pvals"):
+        if ev[0] in ("setpars", "pvals", "simgoes"):
             out["fresh"].append(out["events"][len(out["fresh"])])
             continue
         try:
@@ -571,6 +625,8 @@ class Oracle:
                 return {"ok": ["dict", []]}
             if kind == "pvals":
                 return {"ok": ["dict", sorted([k, rat_str(Fraction(v))] for k, v in self.cur.items())]}
+            if kind == "simgoes":  # a result is a record of what WAS simulated: its producer going on changes nothing
+                return {"ok": ["dict", []]}
             if kind == "args":
                 v = self.finish(self.selected(dict(zip(FLAG_ORDER, ev[1]))), ev[2], ev[3])
             elif kind == "vars":
@@ -652,7 +708,8 @@ def canon_M(r):
 
 
 def _req(case, spec=False):
-    return {"op": "c10", "content": case["content"], "segs": case["segs"], "events": case["events"],
+    events = [["setpars", []] if ev[0] == "simgoes" else ev for ev in case["events"]]
+    return {"op": "c10", "content": case["content"], "segs": case["segs"], "events": events,
             "init_pars": init_pars_of(case),
             "extra_pars": case.get("extra_pars", []), "drop_pars": case.get("drop_pars", 0), "spec": spec}
 
@@ -714,6 +771,15 @@ def judge_case(ctx, case, R, M, S, L, shrink=True):
     ctx.count({k: case[k] for k in ("content", "segs", "events")}, shape_of(case))
     if "recorded" in R:
         ctx.violation(case, R["recorded"], "Simulator recorded other states / parameters than were produced / in force")
+    if "mid" in R:
+        # an intermediate result taken after `peek` segments and read before the simulation went on: it is a record of
+        # those segments, whatever the simulator did afterwards
+        want = sum(len(sg["rows"]) for sg in case["segs"][: case["peek"]])
+        ctx.hist["peek"] = ctx.hist.get("peek", 0) + 1
+        before = [b if isinstance(b, str) else want for b in R["mid"]["before"]]  # a view that raises for this content raises again
+        ctx.judge({**case, "check": "intermediate-result"}, R["mid"],
+                  {"before": before, "after": before, "raw_after": want}, None,
+                  what="an intermediate result keeps its segments after the simulator went on (every view, same row count)")
     bad = malformed(case)
     o = Oracle(case)
     for i, ev in enumerate(case["events"]):
@@ -862,10 +928,29 @@ def run_edge(ctx, n):
                 break
 
 
+def check_hypotheses(ctx, cases):
+    """the decidable hypotheses of the theorems evaluated BY THE DRIVER on the generated cases: `noDynCoefB` (hypothesis of
+    the `_partial` theorems) must single out exactly the variables the harness files under finding F-C10-2, and the
+    distribution of `rhsNamesOkB` (hypothesis of C10_reported_derivative_is_core_derivative) goes into the evidence"""
+    if not ctx.driver_ok:
+        return
+    good = [c for c in cases if not malformed(c)]
+    resp = driver.call_batch([dict(_req(c), checks=True) for c in good])
+    for c, r in zip(good, resp):
+        o = Oracle(c)
+        want = [[k, not o.has_dynamic_coef(k)] for k, _ in c["content"]["vars"]]
+        if sorted(r["no_dyn_coef"]) != sorted(want):
+            ctx.add_drift({k: c[k] for k in ("content", "segs")}, {"finding_class_of_the_harness": want}, {"noDynCoefB": r["no_dyn_coef"]},
+                          "the hypothesis of the _partial theorems and the harness's finding class F-C10-2 single out different variables")
+        key = f"hyp:rhsNamesOk={r['rhs_names_ok']}:noDynCoef={'all' if all(b for _, b in r['no_dyn_coef']) else 'some-dynamic'}"
+        ctx.hist[key] = ctx.hist.get(key, 0) + 1
+
+
 def run(ctx):
     setup(ctx)
     done = 0
     ex = exhaustive_cases()
+    check_hypotheses(ctx, ex[:1])
     for case, (R, M, S, L) in zip(ex, evaluate(ex, ctx.driver_ok)):
         judge_case(ctx, case, R, M, S, L)
         if len(ctx.violations) > 10:
@@ -880,6 +965,7 @@ def run(ctx):
         cases = [gen_case(ctx, done + j) for j in range(min(batch, n - done))]
         for case, (R, M, S, L) in zip(cases, evaluate(cases, ctx.driver_ok)):
             judge_case(ctx, case, R, M, S, L)
+        check_hypotheses(ctx, cases)
         done += len(cases)
         if len(ctx.violations) > 10:
             break
